@@ -6,6 +6,7 @@
 -/
 import PyTough.Proofs.GridSpec
 import PyTough.Proofs.GridEmbed
+import PyTough.Proofs.GridCheck
 namespace Props.C08
 open Py Model Model.Grid Model.Grid.World
 
@@ -51,6 +52,11 @@ theorem consistent_of_inv {w : World} (h : Grid.Inv w) : Consistent w where
   con_key_is_current_names k c hk := ((h.cd_sound k c hk).2).symm
   block_connection_record := h.conn_iff
   rock_registered := h.b_rock
+
+/-- the executable check that the driver evaluates on every explored state (reply field `I=`,
+    compared by the harness with the identity reading of the property on the real grid) is
+    exactly the invariant -/
+theorem checkInv_iff (w : World) : checkInv w = true ↔ Grid.Inv w := Proofs.Grid.checkInv_iff w
 
 /-! ### the invariant is inductive -/
 
